@@ -58,6 +58,12 @@ def products_of(rule, mol):
 
 def job(j):
     res = {}
+    # networks generated earlier IN THIS PROCESS with the same rule texts (their results are not looked at)
+    for w in j.get('warm', []):
+        try:
+            GenerateRxnNet(list(w), list(j['rules']))
+        except Exception:
+            pass
     try:
         out = GenerateRxnNet(list(j['seeds']), list(j['rules']))
         res['impl'] = [canon(m) for m in out]
